@@ -305,6 +305,78 @@ theorem search_range_crash (fs : FS) (al : List AFile) (hrep : Rep fs al) (hwf :
         rw [List.map_append, takeWhile_append_neg _ _ _ hall', List.append_nil]
 
 
+/-- **Line-limited search on a crash state** (same directories as `search_range_crash`): the answer is a list `R` that meets the
+line-limited Spec on the held items (a prefix from the begin second on, at least `n` when there are that many, whole seconds,
+nothing beyond the second in which the limit was reached), followed by at most one more item (the torn line misread); the search
+does not fail. -/
+theorem search_lines_crash (fs : FS) (al : List AFile) (hrep : Rep fs al) (hwf : WF al)
+    (htorn : ∀ f ∈ al.dropLast, f.tail = []) (b n : Nat) (hn : 1 ≤ n) :
+    ∃ R extra, extra.length ≤ 1 ∧ (searchLines fs {} b n).2 = some (R ++ extra) ∧
+      specLinesOk ((al.flatMap AFile.items).map stored) b n R = true := by
+  unfold searchLines
+  have hstart : startFiles fs {} b = al.map (·.id) := by simp [startFiles, cacheOk, hrep.listing]
+  rw [hstart]
+  rcases start_decomp fs al hrep hwf b with ⟨hnone, hearly⟩ | ⟨A, f, B, pre, g, post, hal, hgs, hfs, hitems, hearly, hlo, hsorted⟩
+  · rw [hnone]
+    refine ⟨[], [], by simp, rfl, ?_⟩
+    have := fromSec_assemble (al.flatMap AFile.items) [] b hearly (by simp)
+    simp only [List.append_nil, List.map_nil] at this
+    exact specLinesOk_of _ [] [] b n hn this (by simp) (List.prefix_refl _) (Or.inr rfl) (whole_nil n)
+  · rw [hfs]
+    have hfmem : f ∈ al := by rw [hal]; simp
+    have hBmem : ∀ x ∈ B, x ∈ al := by intro x hx; rw [hal]; simp [hx]
+    have hgoodpost : ∀ it ∈ groupsItems (g :: post), GoodItem it := by
+      intro it hit
+      obtain ⟨g', hg', hig⟩ := List.mem_flatMap.mp hit
+      exact hwf.good f hfmem g' (by rw [hgs]; simp [List.mem_cons.mp hg']) it hig
+    have hfrom := fromSec_assemble _ _ b hearly hlo
+    rw [← hitems] at hfrom
+    have hsortedS : ((groupsItems (g :: post) ++ B.flatMap AFile.items).map stored).Pairwise (fun x y => secOf x ≤ secOf y) :=
+      List.Pairwise.map stored (fun x y h => h) hsorted
+    unfold readLines
+    simp only [hrep.logs f hfmem]
+    obtain ⟨Q1, q1, q2, q3, q4, q5⟩ := absLines_spec n 0 hn ((groupsItems (g :: post)).map stored) [] rfl 0 [] (by simp) (by simpa using whole_nil n)
+    simp only [List.reverse_nil, List.nil_append, List.append_nil] at q1 q3 q4 q5
+    by_cases hB : B = []
+    · -- the start file is the last one: it may end in a torn line
+      subst hB
+      obtain ⟨extra, c, he, hr⟩ := linesOneFile_torn f.groups pre (g :: post) hgs f.tail (hwf.tails f hfmem).1 n 0 0 hgoodpost
+      refine ⟨Q1, extra, he, ?_, ?_⟩
+      · simp only [AFile.log, hr, q1, List.map_nil, linesRest, ite_self]
+      · apply specLinesOk_of _ _ _ b n hn hfrom hsortedS
+        · simpa using q2
+        · by_cases hc : (absLines n 0 ((groupsItems (g :: post)).map stored) 0 []).cont = true
+          · right; rw [(q4 hc).1]; simp
+          · left; exact q5 (by simpa using hc)
+        · exact q3
+    · have hdl : (A ++ f :: B).dropLast = A ++ f :: B.dropLast := dropLast_append_cons A f B hB
+      have hflive : f.tail = [] := htorn f (by rw [hal, hdl]; simp)
+      have hlog : f.log = groupsBytes f.groups := by simp [AFile.log, hflive]
+      rw [hlog, linesOneFile_live f.groups pre (g :: post) hgs n 0 0 hgoodpost]
+      by_cases hc : (absLines n 0 ((groupsItems (g :: post)).map stored) 0 []).cont = true
+      · rw [if_pos hc, q1]
+        obtain ⟨e, _⟩ := q4 hc
+        obtain ⟨Q2, extra, he, r1, r2, r3, r4⟩ := linesRest_torn fs n hn B (fun x hx => hrep.logs x (hBmem x hx))
+          (fun x hx => htorn x (by rw [hal, hdl]; simp [hx])) (fun x hx => (hwf.tails x (hBmem x hx)).1)
+          (fun x hx it hit => by
+            obtain ⟨g', hg', hig⟩ := List.mem_flatMap.mp hit
+            exact hwf.good x (hBmem x hx) g' hg' it hig) Q1 q3
+        refine ⟨Q1 ++ Q2, extra, he, r1, ?_⟩
+        apply specLinesOk_of _ _ _ b n hn hfrom hsortedS
+        · rw [e, List.map_append]; exact (List.prefix_append_right_inj _).mpr r2
+        · rcases r4 with h | h
+          · exact Or.inl h
+          · right; rw [e, h, List.map_append]
+        · exact r3
+      · rw [if_neg hc, q1]
+        have hc' : (absLines n 0 ((groupsItems (g :: post)).map stored) 0 []).cont = false := by simpa using hc
+        refine ⟨Q1, [], by simp, by simp, ?_⟩
+        apply specLinesOk_of _ _ _ b n hn hfrom hsortedS
+        · rw [List.map_append]; exact List.IsPrefix.trans q2 (List.prefix_append _ _)
+        · exact Or.inl (q5 hc')
+        · exact q3
+
+
 /-- **Crash anywhere in a write.** After any history `pre` of complete writes, let the writer die at any byte of the action
 stream of the next `write` call (`k` complete actions and `j` bytes of the next one: inside the removals or creations of a
 roll-over, inside the 16 bytes of an index entry, inside a line, ...). A time-range search by a fresh searcher on what is on
@@ -339,6 +411,87 @@ theorem search_after_crash (maxSize maxFiles nowMs : Nat) (pre : List (Nat × Li
   obtain ⟨extra, he, hs⟩ := search_range_crash _ al' hrep hwf hcap htorn b e res
   refine ⟨extra, he, ?_⟩
   rw [hs, hheld, drop_min (runWrites w0 (({} : FS).applyAll acts) pre).2.2 k0, drop_append_drop _ _ _ _ (Nat.min_le_right _ _)]
+
+/-- the same for the **line-limited search**: after any history, with the writer dead at any byte of the next `write`, the search
+returns a list that meets the line-limited Spec on what is held (what was held before plus the complete lines of the interrupted call,
+minus whole files removed by retention), followed by at most one torn item; it does not fail -/
+theorem search_lines_after_crash (maxSize maxFiles nowMs : Nat) (pre : List (Nat × List MItem)) (ts : Nat) (items : List MItem)
+    (w0 : Writer) (acts : List Act) (hnew : Writer.new {} maxSize maxFiles nowMs = some (w0, acts))
+    (hgoodPre : ∀ p ∈ pre, ∀ it ∈ p.2, GoodItem { it with ts := p.1 }) (hgood : ∀ it ∈ items, GoodItem { it with ts := ts })
+    (hts : nowMs / 1000 < 18446744073709551616 ∧ (∀ p ∈ pre, p.1 / 1000 < 18446744073709551616) ∧ ts / 1000 < 18446744073709551616)
+    (hbytes : histBytes pre + ((stamp ts items).flatMap lineBytes).length < 18446744073709551616)
+    (hitems : histItems pre + items.length + 1 < MAX_ITEM_AMOUNT) (k j : Nat) :
+    ∃ d m, ∀ b n, 1 ≤ n → ∃ R extra : List MItem, extra.length ≤ 1 ∧
+      (searchLines ((runWrites w0 (({} : FS).applyAll acts) pre).2.1.applyAll
+          (crashPrefix ((runWrites w0 (({} : FS).applyAll acts) pre).1.write (runWrites w0 (({} : FS).applyAll acts) pre).2.1 ts items).2.1 k j))
+        {} b n).2 = some (R ++ extra) ∧
+      specLinesOk ((((runWrites w0 (({} : FS).applyAll acts) pre).2.2 ++
+          (accepted (runWrites w0 (({} : FS).applyAll acts) pre).1 ts items).take m).drop d).map stored) b n R = true := by
+  obtain ⟨al0, hinv0, hitems0⟩ := new_inv maxSize maxFiles nowMs w0 acts hnew
+  obtain ⟨al, hinv, k0, hk0⟩ := run_inv pre w0 _ al0 0 0 hinv0 hgoodPre
+  have hl0 : w0.latest = nowMs / 1000 := by
+    unfold Writer.new at hnew
+    split at hnew
+    · simp at hnew
+    · simp only [Option.some.injEq, Prod.mk.injEq] at hnew
+      rw [← hnew.1]
+  have hlatest : (runWrites w0 (({} : FS).applyAll acts) pre).1.latest ≤ 18446744073709551615 :=
+    run_latest_le pre w0 _ 18446744073709551615 (by rw [hl0]; omega) (fun p hp => by have := hts.2.1 p hp; omega)
+  obtain ⟨d, m, al', hrep, hwf, hcap, htorn, hheld⟩ := crash_in_write _ _ al _ _ ts items hinv hgood (by omega) (by omega) ⟨by omega, hts.2.2⟩ k j
+  rw [hk0, hitems0, List.nil_append] at hheld
+  refine ⟨min k0 (runWrites w0 (({} : FS).applyAll acts) pre).2.2.length + d, m, fun b n hn => ?_⟩
+  obtain ⟨R, extra, he, hs, hok⟩ := search_lines_crash _ al' hrep hwf htorn b n hn
+  refine ⟨R, extra, he, hs, ?_⟩
+  rw [hheld, drop_min (runWrites w0 (({} : FS).applyAll acts) pre).2.2 k0, drop_append_drop _ _ _ _ (Nat.min_le_right _ _)] at hok
+  exact hok
+
+/-- **Crash while the writer is being created** (`DefaultMetricLogWriter::new` on an empty directory issues two creations: the log
+file, then its index file): whatever prefix of them has happened - nothing, the log file without its index, both - both searches
+by a fresh searcher answer with the empty list and do not fail. -/
+theorem search_after_crash_in_new (maxSize maxFiles nowMs : Nat) (w0 : Writer) (acts : List Act)
+    (hnew : Writer.new {} maxSize maxFiles nowMs = some (w0, acts)) (k j : Nat) :
+    (∀ b e res, (searchRange (({} : FS).applyAll (crashPrefix acts k j)) {} b e res).2 = some []) ∧
+    (∀ b n, 1 ≤ n → (searchLines (({} : FS).applyAll (crashPrefix acts k j)) {} b n).2 = some []) := by
+  have hacts : acts = (rollActs {} maxFiles nowMs).2 := by
+    unfold Writer.new at hnew
+    split at hnew
+    · simp at hnew
+    · simp only [Option.some.injEq, Prod.mk.injEq] at hnew
+      exact hnew.2.symm
+  subst hacts
+  obtain ⟨al', q, hrep, hal⟩ := roll_prefix_state ({} : FS) [] ⟨rfl, rfl⟩ (by simp [IdsSorted]) maxFiles nowMs (by simp) k j
+  simp only [List.drop_nil, List.nil_append] at hal
+  have hitems : al'.flatMap AFile.items = [] := by
+    rcases hal with h | h <;> simp [h, AFile.new, AFile.items, groupsItems]
+  have hlive : ∀ f ∈ al', f.tail = [] ∧ f.idxTail = [] := by
+    rcases hal with h | h
+    · simp [h]
+    · intro f hf; rw [h] at hf; simp only [List.mem_singleton] at hf; subst hf; simp [AFile.new]
+  have hgroups : ∀ f ∈ al', f.groups = [] := by
+    rcases hal with h | h
+    · simp [h]
+    · intro f hf; rw [h] at hf; simp only [List.mem_singleton] at hf; subst hf; simp [AFile.new]
+  have hwf : WF al' := by
+    refine ⟨?_, ?_, ?_, ?_, ?_, ?_⟩
+    · have : al'.flatMap (fun f => f.groups.map (·.1)) = [] := by
+        rw [List.flatMap_eq_nil_iff]; intro f hf; simp [hgroups f hf]
+      rw [this]; exact List.Pairwise.nil
+    · intro f hf g hg; rw [hgroups f hf] at hg; simp at hg
+    · intro f hf g hg; rw [hgroups f hf] at hg; simp at hg
+    · intro f hf; rw [hgroups f hf]; simp [groupsBytes]
+    · intro f hf; rw [(hlive f hf).1, (hlive f hf).2]; simp
+    · rw [hitems]; simp [MAX_ITEM_AMOUNT]
+  constructor
+  · intro b e res
+    rw [search_range_finds_all _ al' hrep hwf hlive b e res, hitems]; rfl
+  · intro b n hn
+    obtain ⟨R, h1, h2⟩ := search_lines_ok _ al' hrep hwf hlive b n hn
+    rw [hitems] at h2
+    have hR : R = [] := by
+      unfold specLinesOk at h2
+      simp only [List.map_nil, fromSec, List.filter_nil, List.take_nil, Bool.and_eq_true, beq_iff_eq] at h2
+      exact h2.1.1
+    rw [h1, hR]
 
 /-! ### a long-lived searcher (cached position) -/
 
